@@ -141,6 +141,7 @@ type Val struct {
 	Str  []byte `json:"str,omitempty"`  // for an ASCII variable
 	IsS  bool   `json:"iss,omitempty"`
 	Slot *Slot  `json:"slot,omitempty"` // for a scalar slot (in the kind's own representation)
+	K    Kind   `json:"k,omitempty"`    // kind of the slot's item (tells how to hand the value to the API)
 }
 
 // Fill substitutes values for variables in an ellipsis-free template. Keys
